@@ -84,7 +84,7 @@ CHECKS = {
         'assumptions': T_ASSUME,
     },
     'C08': {
-        'units': lambda t: [u_exc(t, 0), u_exc(t, 1), u_exc(t, 2), u_exc(t, 4), u_exc(t, 5), u_exc(t, 8), u_act(t, 0), u_act(t, 1), u_act(t, 2), u_tree(t, 0), t_unit('t_cov', 'COV', tier=t)],
+        'units': lambda t: [u_exc(t, 0), u_exc(t, 1), u_exc(t, 2), u_exc(t, 4), u_exc(t, 5), u_exc(t, 8), u_exc(t, 10), u_act(t, 0), u_act(t, 1), u_act(t, 2), u_tree(t, 0), t_unit('t_cov', 'COV', tier=t)],
         'rule': 'hook log of every execution of the exception and action spaces under three control families (with unwind, without unwind, all rules '
                 'visible) is run through the protocol automaton start;(apply|apply0)?;(success|failure|unwind) with proper nesting; the real coverage<> facility on tables of '
                 '<=3 rules with vetoing and throwing actions: start = success + failure + unwind for every rule and branch, and the per-rule counters equal the reference\'s number of attempts and outcomes, '
